@@ -97,7 +97,7 @@ func (t *StandardRoundTimer) background(ctx context.Context) {
 		}
 	}
 
-	var timerElapsed, cancelTimer chan struct{}
+	var timerElapsed, cancelTimer, timerDone chan struct{}
 
 	for {
 		// Wait for signal to start timer.
@@ -112,9 +112,13 @@ func (t *StandardRoundTimer) background(ctx context.Context) {
 
 			timerElapsed = make(chan struct{})
 			cancelTimer = make(chan struct{})
-			// Local reference so the returned cancel function
-			// doesn't have a closure over the outer variable.
+			// Closed when this goroutine is done with this timer,
+			// i.e. ready to accept the next start timer request.
+			timerDone = make(chan struct{})
+			// Local references so the returned cancel function
+			// doesn't have a closure over the outer variables.
 			localCancel := cancelTimer
+			localDone := timerDone
 			var cancelOnce sync.Once
 			// The caller should be blocking on the receive here,
 			// so we should be safe to do a blocking send.
@@ -124,6 +128,16 @@ func (t *StandardRoundTimer) background(ctx context.Context) {
 					cancelOnce.Do(func() {
 						close(localCancel)
 					})
+
+					// The caller is allowed to request a new timer as soon as cancel returns,
+					// so wait until the background goroutine has observed the cancellation
+					// (or the elapse) and is back to accepting start requests.
+					// Otherwise the new request could be received while
+					// the cancelled timer is still considered running.
+					select {
+					case <-localDone:
+					case <-t.bgDone:
+					}
 				},
 			}
 		}
@@ -163,6 +177,10 @@ func (t *StandardRoundTimer) background(ctx context.Context) {
 				"BUG: new timer requested before previous timer elapsed or was cancelled",
 			))
 		}
+
+		// Done with this timer; unblock any waiting cancel calls.
+		close(timerDone)
+		timerDone = nil
 	}
 }
 
